@@ -31,7 +31,7 @@ func (b *StringBuilder) Print(args ...interface{})
   may-panic
   modifies b, alloc, memU, fdp, fdk, fdar, fdao, fdal, fdf, fdfl
   assert [C08,C09,C16] b.mode == SafeRaw before "_, _ = ifmt.Fprint(&b.Buffer, args...)"
-  ensures [C09,C16] Routed(1, args)
+  ensures [C08,C09,C16] Routed(1, args)
 
 func (b *StringBuilder) Printf(format string, args ...interface{})
   public format
@@ -39,7 +39,7 @@ func (b *StringBuilder) Printf(format string, args ...interface{})
   may-panic
   modifies b, alloc, memU, fdp, fdk, fdar, fdao, fdal, fdf, fdfl
   assert [C08,C09,C16] b.mode == SafeRaw before "_, _ = ifmt.Fprintf(&b.Buffer, format, args...)"
-  ensures [C09,C16] Routed(2, args) && sameView(fdf, format) && fdfl == len(format)
+  ensures [C08,C09,C16] Routed(2, args) && sameView(fdf, format) && fdfl == len(format)
 
 func (b *StringBuilder) SafeString(s i.SafeString)
   assert [C09,C05] b.mode == SafeEscaped before "_, _ = b.Buffer.WriteString(string(s))"
